@@ -11,6 +11,8 @@ import Mathlib.Tactic.LinearCombination
 import Mathlib.Tactic.Positivity
 import Mathlib.Tactic.SplitIfs
 import Mathlib.Algebra.Order.Field.Rat
+import Mathlib.Order.Lattice
+import Mathlib.Order.Monotone.Basic
 import PorepyVerif.C28.Model
 
 namespace PorepyVerif.C28
@@ -587,5 +589,73 @@ theorem seg3d_cross_core (tol : Rat) (a b c d : P3) (U1 V1 W1 U2 V2 W2 SX SY SZ 
   · simp only [h1, not_false_eq_true, if_true, if_false, mxy, abs_lt_tol_iff _ tol htol htol1]
     exact cross3d_xy tol a b c d U1 V1 W1 U2 V2 W2 SX SY SZ hU1 hV1 hW1 hU2 hV2 hW2 hSX hSY hSZ htol h1
       (bnd _ hxy)
+
+/-! ## §5  3-D: the parallel branch -/
+
+theorem argsortMid_spec (s1 e1 s2 e2 : Rat) (h1 : ¬ max s1 e1 < min s2 e2) (h2 : ¬ max s2 e2 < min s1 e1) :
+   col4 s1 e1 s2 e2 (argsortMid s1 e1 s2 e2).1 = max (min s1 e1) (min s2 e2) ∧
+   col4 s1 e1 s2 e2 (argsortMid s1 e1 s2 e2).2 = min (max s1 e1) (max s2 e2) := by
+  unfold argsortMid
+  simp only [sortV, insertV]
+  repeat' (first | split_ifs | (simp only [insertV]; done) | (simp only [insertV]; split_ifs))
+  all_goals (simp only [col4]; grind)
+
+/-- the point of line `a b` with parameter `t` -/
+def lineAt (a b : P3) (t : Rat) : P3 :=
+  ⟨a.x + t * (b.x - a.x), a.y + t * (b.y - a.y), a.z + t * (b.z - a.z)⟩
+
+theorem lineAt_get (a b : P3) (t : Rat) (ax : Ax) :
+    (lineAt a b t).get ax = a.get ax + t * (b.get ax - a.get ax) := by cases ax <;> rfl
+
+theorem lineAt_zero (a b : P3) : lineAt a b 0 = a := by
+  cases a; simp [lineAt]
+theorem lineAt_one (a b : P3) : lineAt a b 1 = b := by
+  cases a; cases b; simp [lineAt]
+
+theorem phi_strictMono (s δ : Rat) (hδ : 0 < δ) : StrictMono (fun v : Rat => (v - s) / δ) := by
+  intro x y h
+  exact div_lt_div_of_pos_right (by linarith) hδ
+
+theorem phi_strictAnti (s δ : Rat) (hδ : δ < 0) : StrictAnti (fun v : Rat => (v - s) / δ) := by
+  intro x y h
+  exact div_lt_div_of_neg_of_lt hδ (by linarith)
+
+theorem scalar_pos (s1 e1 s2 e2 : Rat) (hδ : 0 < e1 - s1) :
+    ((max (min s1 e1) (min s2 e2)) - s1) / (e1 - s1)
+        = max (min ((s2 - s1) / (e1 - s1)) ((e2 - s1) / (e1 - s1))) 0 ∧
+    ((min (max s1 e1) (max s2 e2)) - s1) / (e1 - s1)
+        = min (max ((s2 - s1) / (e1 - s1)) ((e2 - s1) / (e1 - s1))) 1 := by
+  have hm := (phi_strictMono s1 (e1 - s1) hδ).monotone
+  have h0 : (s1 - s1) / (e1 - s1) = 0 := by simp
+  have h1 : (e1 - s1) / (e1 - s1) = 1 := div_self (ne_of_gt hδ)
+  have hle : s1 ≤ e1 := by linarith
+  constructor
+  · have := hm.map_max (a := min s1 e1) (b := min s2 e2)
+    simp only [hm.map_min] at this
+    rw [this, h0, h1, min_eq_left (zero_le_one), max_comm]
+  · have := hm.map_min (a := max s1 e1) (b := max s2 e2)
+    simp only [hm.map_max] at this
+    rw [this, h0, h1, max_eq_right (zero_le_one), min_comm]
+
+theorem scalar_neg (s1 e1 s2 e2 : Rat) (hδ : e1 - s1 < 0) :
+    ((max (min s1 e1) (min s2 e2)) - s1) / (e1 - s1)
+        = min (max ((s2 - s1) / (e1 - s1)) ((e2 - s1) / (e1 - s1))) 1 ∧
+    ((min (max s1 e1) (max s2 e2)) - s1) / (e1 - s1)
+        = max (min ((s2 - s1) / (e1 - s1)) ((e2 - s1) / (e1 - s1))) 0 := by
+  have hm := (phi_strictAnti s1 (e1 - s1) hδ).antitone
+  have h0 : (s1 - s1) / (e1 - s1) = 0 := by simp
+  have h1 : (e1 - s1) / (e1 - s1) = 1 := div_self (ne_of_lt hδ)
+  constructor
+  · have := hm.map_max (a := min s1 e1) (b := min s2 e2)
+    simp only [hm.map_min] at this
+    rw [this, h0, h1, max_eq_right (zero_le_one), min_comm]
+  · have := hm.map_min (a := max s1 e1) (b := max s2 e2)
+    simp only [hm.map_max] at this
+    rw [this, h0, h1, min_eq_left (zero_le_one), max_comm]
+
+/-- the two disjointness tests of `segments_3d` together say: the overlap interval is empty -/
+theorem disjoint_iff (s1 e1 s2 e2 : Rat) :
+    (max s1 e1 < min s2 e2 ∨ max s2 e2 < min s1 e1) ↔ min (max s1 e1) (max s2 e2) < max (min s1 e1) (min s2 e2) := by
+  grind
 
 end PorepyVerif.C28
